@@ -112,7 +112,7 @@ pub fn run(seed: u64, verbose: bool) -> usize {
             let got = &results[t][i];
             reset_shared();
             let reference = exec::<FsTzdbProvider>(op, Mode::Wrapper, false).outcome;
-            let relaxed = op.fault.map(|f| got.fault_fired && f.kind.may_fail() && got.outcome.is_generic_err()).unwrap_or(false);
+            let relaxed = op.fault.map(|f| got.fault_fired && f.kind.may_fail() && matches!(got.outcome, Outcome::Err(..))).unwrap_or(false);
             let ok = got.outcome.same(&reference) || relaxed;
             if verbose || !ok {
                 println!("  t{t}.{i} {} => {}{}", op.show(), got.outcome.show(), if ok { String::new() } else { format!("   != solo {}", reference.show()) });
